@@ -41,8 +41,7 @@ def expectedSites : List (String × String × String) := [
   ("prefs-write", "cssutils/scripts/cssparse.py:main", "useMinified"),
   -- ctor / runChild: `{ g with pushed := [] }`
   ("pushed-clear", "cssutils/prodparser.py:ProdParser.__init__", "-"),
-  -- onTok (ParseError with stopIf) and onFound (stopAndKeep)
-  ("pushed-push", "cssutils/prodparser.py:ProdParser.parse", "-"),
+  -- onFound (stopAndKeep); the push of onTok (ParseError with stopIf) went with ed45313
   ("pushed-push", "cssutils/prodparser.py:ProdParser.parse", "-"),
   -- Tokenizer.__init__/clear/push
   ("pushed-write", "cssutils/tokenize2.py:Tokenizer.__init__", "-"),
